@@ -348,6 +348,62 @@ pub fn eval_str(s: &str, depth: usize, acc: &mut Acc) {
             }
         }
     }
+    // 3b. marked nodes with the SAME spans but different data are different
+    if let Ok(Ok(docs)) = catch_unwind(AssertUnwindSafe(|| MarkedYaml::load_from_str(s))) {
+        fn mutate<'a>(n: &MarkedYaml<'a>, done: &mut bool) -> MarkedYaml<'a> {
+            let data = match &n.data {
+                YamlData::Value(_) | YamlData::Representation(..) if !*done => {
+                    *done = true;
+                    YamlData::Value(Scalar::String("\u{1}mutated\u{1}".into()))
+                }
+                YamlData::Sequence(v) => YamlData::Sequence(v.iter().map(|c| mutate(c, done)).collect()),
+                YamlData::Mapping(m) => {
+                    let mut out = LinkedHashMap::new();
+                    for (k, v) in m.iter() {
+                        // mutate values only (mutating a key could merge entries)
+                        out.insert(k.clone(), mutate(v, done));
+                    }
+                    YamlData::Mapping(out)
+                }
+                other => other.clone(),
+            };
+            MarkedYaml { span: n.span, data }
+        }
+        for d in &docs {
+            let mut done = false;
+            let t = mutate(d, &mut done);
+            if done && *d == t {
+                acc.violation(Violation { key: "marked-eq-ignores-data nt=Marked".into(), expected: "nodes with different data are different, whatever their spans".into(), observed: format!("{:?} == {:?}", canon_marked(d), canon_marked(&t)), case: str_case(s), size: s.len() });
+            }
+        }
+    }
+    if let Ok(Ok(docs)) = catch_unwind(AssertUnwindSafe(|| MarkedYamlOwned::load_from_str(s))) {
+        fn mutate_o(n: &MarkedYamlOwned, done: &mut bool) -> MarkedYamlOwned {
+            let data = match &n.data {
+                YamlDataOwned::Value(_) | YamlDataOwned::Representation(..) if !*done => {
+                    *done = true;
+                    YamlDataOwned::Value(saphyr::ScalarOwned::String("\u{1}mutated\u{1}".into()))
+                }
+                YamlDataOwned::Sequence(v) => YamlDataOwned::Sequence(v.iter().map(|c| mutate_o(c, done)).collect()),
+                YamlDataOwned::Mapping(m) => {
+                    let mut out = LinkedHashMap::new();
+                    for (k, v) in m.iter() {
+                        out.insert(k.clone(), mutate_o(v, done));
+                    }
+                    YamlDataOwned::Mapping(out)
+                }
+                other => other.clone(),
+            };
+            MarkedYamlOwned { span: n.span, data }
+        }
+        for d in &docs {
+            let mut done = false;
+            let t = mutate_o(d, &mut done);
+            if done && *d == t {
+                acc.violation(Violation { key: "marked-eq-ignores-data nt=MarkedOwned".into(), expected: "nodes with different data are different, whatever their spans".into(), observed: format!("{:?} == {:?}", canon_marked_owned(d), canon_marked_owned(&t)), case: str_case(s), size: s.len() });
+            }
+        }
+    }
     // 4. borrowed -> owned -> borrowed scalar identity
     if let Ok(Ok(docs)) = catch_unwind(AssertUnwindSafe(|| Yaml::load_from_str(s))) {
         let mut bad = vec![];
@@ -400,7 +456,7 @@ pub fn check(tier: Tier) -> i32 {
     let table: Vec<String> = crate::props::c08::boundary_texts().into_iter().filter(|t| !t.contains('\n')).flat_map(|t| vec![format!("k: {t}\n"), format!("[{t}, {t}]\n"), format!("? {t}\n: {t}\n{t}x: [{t}]\n")]).collect();
     let mut table = table;
     // tagged scalars in every style, and keys that become equal once resolved
-    for tag in ["!!int", "!!float", "!!bool", "!!null", "!!str", "!t"] {
+    for tag in ["", "!!int", "!!float", "!!bool", "!!null", "!!str", "!t"] {
         for text in ["1", "x", "true", "~", "1.5", "0x1"] {
             for (l, r) in [("", ""), ("\"", "\""), ("'", "'"), ("|-\n  ", ""), (">-\n  ", "")] {
                 table.push(format!("- {tag} {l}{text}{r}\n"));
